@@ -2,6 +2,8 @@ package main
 
 import (
 	"encoding/json"
+	"go/types"
+	"reflect"
 	"flag"
 	"fmt"
 	"os"
@@ -56,7 +58,7 @@ func loadSpecs(w *World, verifDir string) *Specs {
 	sp := newSpecs()
 	// contracts kept in the repository next to the code (build tag verif)
 	for _, p := range w.Pkgs {
-		if !strings.HasPrefix(p.PkgPath, modPath) {
+		if !isModPath(p.PkgPath) {
 			continue
 		}
 		files, _ := filepath.Glob(filepath.Join(w.Repo, strings.TrimPrefix(p.PkgPath, modPath), "*_verif.go"))
@@ -269,6 +271,16 @@ func cmdCheck(args []string) int {
 		for _, u := range tr.unsupported {
 			undecided = append(undecided, tr.key+": "+u)
 		}
+	}
+	// structural obligations (call graph / type information)
+	for _, st := range sp.Structurals {
+		if *fnOnly != "" || !contains(st.Serves, *prop) {
+			continue
+		}
+		o := structuralObligation(w, ms, st)
+		o.Prop = st.Serves
+		obls = append(obls, o)
+		frs = append(frs, &fnReport{Key: o.Fn, Pos: o.Pos, Obligations: 1})
 	}
 	if *only != "" {
 		re := regexp.MustCompile(*only)
@@ -502,4 +514,162 @@ func initSlice(fn *ssa.Function, sp *Specs, pkg string) map[ssa.Instruction]bool
 		}
 	}
 	return keep
+}
+
+// structuralObligation decides a callers / writers / jsonfields item directly.
+func structuralObligation(w *World, ms *ModSets, st *Structural) *Obligation {
+	o := &Obligation{Name: st.Pkg + "." + st.Kind + "." + st.Target, Kind: st.Kind, Fn: st.Pkg + "." + st.Kind + "." + st.Target,
+		Pos: fmt.Sprintf("%s:%d", st.File, st.Line), Expect: "unsat", Solver: "go/types+go/ssa", Status: "discharged"}
+	allowed := map[string]bool{}
+	for _, a := range st.Allowed {
+		allowed[qualify(st.Pkg, a)] = true
+		allowed[a] = true
+	}
+	var bad []string
+	switch st.Kind {
+	case "callers":
+		o.Desc = "every call of " + st.Target + " is made from: " + strings.Join(st.Allowed, ", ")
+		for _, fn := range w.AllFn {
+			key := funcKey(fn)
+			// closures count as their enclosing function
+			top := fn
+			for top.Parent() != nil {
+				top = top.Parent()
+			}
+			tkey := funcKey(top)
+			for _, b := range fn.Blocks {
+				for _, in := range b.Instrs {
+					// address taken (function value) counts as a potential call
+					var ops []*ssa.Value
+					for _, op := range in.Operands(ops) {
+						if op == nil || *op == nil {
+							continue
+						}
+						f, ok := (*op).(*ssa.Function)
+						if !ok {
+							continue
+						}
+						if matchCallee(st, f, nil) && !allowed[key] && !allowed[tkey] {
+							bad = append(bad, key+" ("+w.pos(in.Pos())+")")
+						}
+					}
+					if ci, ok := in.(ssa.CallInstruction); ok && ci.Common().IsInvoke() {
+						if matchCallee(st, nil, ci.Common()) && !allowed[key] && !allowed[tkey] {
+							bad = append(bad, key+" ("+w.pos(in.Pos())+")")
+						}
+					}
+				}
+			}
+		}
+	case "writers":
+		o.Desc = "every store to " + st.Target + " is made from: " + strings.Join(st.Allowed, ", ")
+		comp := "F:" + st.Pkg + "." + st.Target
+		if strings.Contains(st.Target, ":") {
+			comp = st.Target
+		}
+		for _, fn := range w.AllFn {
+			if ms.direct[fn][comp] {
+				top := fn
+				for top.Parent() != nil {
+					top = top.Parent()
+				}
+				if !allowed[funcKey(fn)] && !allowed[funcKey(top)] {
+					bad = append(bad, funcKey(fn))
+				}
+			}
+		}
+	case "jsonfields":
+		o.Desc = "the JSON field set of " + st.Target + " is exactly: " + strings.Join(st.Allowed, ", ")
+		sp := w.SPkgs[st.Pkg]
+		var got []string
+		if sp != nil {
+			if tn, ok := sp.Members[st.Target].(*ssa.Type); ok {
+				got = jsonFields(tn.Type(), "")
+			}
+		}
+		gs := map[string]bool{}
+		for _, g := range got {
+			gs[g] = true
+			if !allowed[g] {
+				bad = append(bad, "unexpected field "+g)
+			}
+		}
+		for _, a := range st.Allowed {
+			if !gs[a] {
+				bad = append(bad, "missing field "+a)
+			}
+		}
+		if len(got) == 0 {
+			bad = append(bad, "type not found")
+		}
+	}
+	if len(bad) > 0 {
+		sort.Strings(bad)
+		o.Status = "refuted"
+		o.Model = strings.Join(bad, "\n")
+		o.Desc += " -- violated by: " + strings.Join(bad, "; ")
+	}
+	return o
+}
+
+func matchCallee(st *Structural, f *ssa.Function, cc *ssa.CallCommon) bool {
+	t := st.Target
+	if strings.HasPrefix(t, "lib:") {
+		pkg := t[4:]
+		if f != nil {
+			if f.Pkg != nil && f.Pkg.Pkg.Path() == pkg {
+				return true
+			}
+			if f.Signature.Recv() != nil {
+				if n, ok := deref(f.Signature.Recv().Type()).(*types.Named); ok && n.Obj().Pkg() != nil && n.Obj().Pkg().Path() == pkg {
+					return true
+				}
+			}
+			return false
+		}
+		return cc.Method.Pkg() != nil && cc.Method.Pkg().Path() == pkg
+	}
+	if f == nil {
+		return false
+	}
+	return inModule(f) && funcKey(f) == qualify(st.Pkg, t)
+}
+
+// jsonFields lists the JSON names of a struct type, nested structs as a.b.
+func jsonFields(t types.Type, prefix string) []string {
+	if p, ok := t.Underlying().(*types.Pointer); ok {
+		t = p.Elem()
+	}
+	st, ok := t.Underlying().(*types.Struct)
+	if !ok {
+		return nil
+	}
+	var out []string
+	for i := 0; i < st.NumFields(); i++ {
+		f := st.Field(i)
+		if !f.Exported() {
+			continue
+		}
+		name := f.Name()
+		tag := reflect.StructTag(st.Tag(i)).Get("json")
+		if tag == "-" {
+			continue
+		}
+		if j := strings.Index(tag, ","); j >= 0 {
+			tag = tag[:j]
+		}
+		if tag != "" {
+			name = tag
+		}
+		ft := f.Type()
+		if p, ok := ft.Underlying().(*types.Pointer); ok {
+			ft = p.Elem()
+		}
+		if _, isStruct := ft.Underlying().(*types.Struct); isStruct && !strings.HasPrefix(ft.String(), "time.") {
+			out = append(out, jsonFields(ft, prefix+name+".")...)
+			continue
+		}
+		out = append(out, prefix+name)
+	}
+	return out
 }
